@@ -83,6 +83,7 @@ def errS (e : DErr) : String := s!"err {e.name}"
 def step (st : St) (line : String) : St × String :=
   match line.trimAscii.toString.splitOn " " with
   | ["cell"] => ({}, "ok")
+  | "note" :: _ => (st, "ok")
   | ["n", x, y, z] =>
     match parseFs [x, y, z] with
     | some [a, b, c] => ({ st with pend := st.pend.push ⟨a, b, c⟩ }, "ok")
